@@ -804,6 +804,12 @@ def check_C11(res, tier, seed):
              # answers for the model plus the clauses the library added itself during the interrupted
              # call (see F2): "can be asked again and then gives the correct answer" does not hold
              "C10.StaleInternalClauses": "C11.StaleAfterInterrupt"}
+    # design level: a solve stopped by its termination condition can leave undelivered domain events
+    # behind; a propagator registered afterwards must not be notified of changes that predate it
+    # (spec/Notify.tla; the registration order as found at the pinned commit must violate it, F45)
+    mc_part(res, "Notify", "Notify", label="C11.MC.NoStaleNotification",
+            required_actions=["Assign", "Propagate", "AddPropagator"])
+    mc_part(res, "Notify", "Notify_asfound", expect_ok=False)
 
     def rec(d):
         build_harness()
